@@ -169,7 +169,11 @@ def check_jitter(ctx):
     if not ok:
         return
     rl = enclosing_for(draws[0], f.node)
-    ctx.need(rl is not None, "the uniform draw of jitter_command is not inside the row loop")
+    ctx.ob(4, "K3", "one offset is drawn per pipeline, in file order, where its first row is read (the draw sits in the loop over the rows)", rl is not None, f, draws[0],
+           construct="draw inside the row loop", detail="inside the row loop" if rl is not None else "the draw is made outside the loop over the rows: which pipeline gets which offset "
+           "is decided elsewhere (by the order of some other collection)")
+    if rl is None:
+        return
     rowv = rl.target.id if isinstance(rl.target, ast.Name) else "row"
     le = loop_env(rl)
     stores = _row_stores(f, rowv)
